@@ -15,6 +15,7 @@ def main():
     a = ap.parse_args()
     warnings.simplefilter('ignore')
     os.environ.setdefault('NUMDIFFTOOLS_VERIF', '1')
+    os.environ['VERIF_TIER'] = a.tier
     seed = int(os.environ.get('VERIF_SEED', '0') or 0)
     from vf import core
     mod = importlib.import_module('vf.props.%s' % a.prop.lower())
